@@ -783,3 +783,12 @@ func (a *act) runDefers(st *State, reach Term) *State {
 	}
 	return cur
 }
+
+// topFn: the function of the verification unit this activation belongs to (the outermost caller).
+func (a *act) topFn() *ssa.Function {
+	p := a
+	for p.caller != nil {
+		p = p.caller
+	}
+	return p.fn
+}
